@@ -190,6 +190,8 @@ type Worker struct {
 	maxDec      int
 	skipModel   *ssa.Function
 	x509        []*x509Call
+	sigs        []*sigRecord
+	keys        []*testKey
 	opaqueN     int
 
 	// stats
@@ -760,6 +762,8 @@ func (w *Worker) runPath(fn *ssa.Function, prefix []Decision) {
 	w.allocCap = 0
 	w.hashes = w.hashes[:0]
 	w.x509 = w.x509[:0]
+	w.sigs = w.sigs[:0]
+	w.keys = w.keys[:0]
 	w.freshN = 0
 	w.opaqueN = 0
 	w.pathViol = 0
